@@ -30,6 +30,10 @@ GEN_SPEC = {"imports": ["From God Require Import C19.GenEnv."], "items": [
     {"kind": "chain", "file": "lib/logx/logs.go", "func": "createOutput", "call": "NewLogger", "as": "new_logger_args"},
     {"kind": "const", "file": "lib/logx/vars.go", "name": "backupFileDelimiter"},
     {"kind": "const", "file": "lib/logx/vars.go", "name": "accessFilename"},
+    {"kind": "calls", "file": "lib/logx/writer.go", "func": "writePlainText", "as": "write_plain_text_calls"},
+    {"kind": "calls", "file": "lib/logx/writer.go", "func": "writePlainValue", "as": "write_plain_value_calls"},
+    {"kind": "calls", "file": "lib/logx/writer.go", "func": "writeJson", "as": "write_json_calls"},
+    {"kind": "calls", "file": _F, "func": "RotateLogger.Write", "as": "rotate_write_calls"},
 ]}
 QUICK_N = 150
 THOROUGH_N = 2000
@@ -45,7 +49,10 @@ RULE = ("scripts of 3-14 records (ids 0..; byte lengths 0..1.5*maxSize resp. 0..
         "scripted boundary date; every third case submits the records through the logx writer front-end instead "
         "(concreteWriter.Info on the RotateLogger as newFileWriter wires it, or NewWriter(rotateLogger); JSON and plain "
         "encodings) in bursts of 1-14 records while the writer goroutine is parked, and files are compared line by line with "
-        "the lines handed to RotateLogger.Write; non-trivial = at least two rotations, or one rotation and a clean-up that removed a file; "
+        "the lines handed to RotateLogger.Write; every sixth case logs through the public logx functions "
+        "(Info/Infof/Error/Errorf/Slow/Stat -> global writer) under the size rule (maxSize 6-300 kB), plain (75%) or JSON, "
+        "records of 0-200 B, 4096/4097/5000/8192/12000/16384 B, 4-20 kB and 100 KiB, sequentially, in bursts and from "
+        "2-4 goroutines at once; non-trivial = at least two rotations, or one rotation and a clean-up that removed a file; "
         "distinct = distinct canonical case JSON")
 TRUSTED = ["os / filepath.Glob / sort.Strings / compress/gzip and time.Format of the Go standard library (modelled: "
            "directory as a finite map, single-* glob on glob-safe names, byte-wise string order, gzip as a layer count)",
@@ -249,10 +256,66 @@ def _setup(rng, tier):
     return c
 
 
+LONG = [4096, 4097, 5000, 8192, 8192, 12000, 16384]
+FNS = ["info", "info", "infof", "error", "errorf", "slow", "stat"]
+
+
+def _public(rng, tier):
+    """long records through the public logx functions (Info/Infof/Error/Errorf/Slow/Stat -> global writer ->
+    concreteWriter -> RotateLogger), size rule, mostly plain encoding, sequential, in bursts and from several
+    goroutines at once; compression off (compressLogFile itself logs through the global writer)"""
+    c = _one(rng, tier, {"kind": "size", "gzip": False, "compress": False,
+                         "maxsize": rng.choice([6000, 20000, 20000, 65536, 150000, 300000]), "lens": (1, 1)})
+    c["front"] = {"enc": "plain" if rng.random() < 0.75 else "json", "wire": "public"}
+    for sd in c["seeds"]:
+        sd["recs"] = [[r[0], r[1] + 5] for r in sd["recs"]]
+
+    def length():
+        r = rng.random()
+        if r < 0.35:
+            return rng.randint(0, 200)
+        if r < 0.85:
+            return rng.choice(LONG) if rng.random() < 0.7 else rng.randint(4097, 20000)
+        return 102400
+
+    evs, group = [], []
+
+    def flush():
+        nonlocal group
+        if not group:
+            return
+        r = rng.random()
+        if len(group) >= 2 and r < 0.6:
+            k = rng.randint(2, min(4, len(group)))
+            gor = [[] for _ in range(k)]
+            for j, w in enumerate(group):
+                gor[j % k].append([w[0], length(), rng.choice(FNS)])
+            evs.append({"c": {"gor": gor, "stamps": [w[2] for w in group]}})
+        elif len(group) >= 2 and r < 0.8:
+            evs.append({"b": [[w[0], length(), w[2]] for w in group]})
+        else:
+            evs.extend({"w": [w[0], length(), w[2]]} for w in group)
+        group = []
+
+    for e in c["events"]:
+        if "w" in e:
+            group.append(e["w"])
+            if rng.random() < 0.25:
+                flush()
+        else:
+            flush()
+            evs.append(e)
+    flush()
+    c["events"] = evs
+    return c
+
+
 def generate(rng, tier, n):
     out = []
     for i in range(n):
-        if i % 3 == 2:
+        if i % 6 == 5:
+            out.append(_public(rng, tier))
+        elif i % 3 == 2:
             out.append(_front(rng, tier))
         elif i % 15 == 0:
             out.append(_setup(rng, tier))
@@ -272,6 +335,8 @@ def _writes(case):
             out.append(e["w"])
         elif "b" in e:
             out.extend(e["b"])
+        elif "c" in e:
+            out.extend([r[0], r[1], None] for g in e["c"]["gor"] for r in g)
     return out
 
 
@@ -355,10 +420,12 @@ def encode(case, obs):
     front_ok = True
     if case.get("front"):
         # the byte length of a record is the length of its encoded line, observed where the front-end hands it over
+        # what the model processes are the slices handed to RotateLogger.Write, in order of arrival, each with the
+        # clock string it saw; exactly one well-formed slice per submitted record when the front-end is right
         acc = obs.get("accepted", [])
-        front_ok = len(acc) == len(writes) and all(a[0] == w[0] and a[2] == 1 for a, w in zip(acc, writes))
-        for a, w in zip(acc, writes):
-            w[1] = a[1]
+        front_ok = sorted(a[0] for a in acc) == sorted(w[0] for w in writes) and all(a[2] == 1 for a in acc)
+        stamps = [l.get("s", "") for l in obs["log"] if l.get("w") is not None]
+        writes = [[a[0] if a[0] >= 0 else 999, a[1], stamps[k] if k < len(stamps) else ""] for k, a in enumerate(acc)]
     evs = []
     restarts = [e["r"] for e in case["events"] if "r" in e]
     for e in obs["log"]:
@@ -400,6 +467,10 @@ def bucket(case, obs):
     if case.get("front"):
         out.append("front:%s/%s" % (case["front"]["enc"], case["front"]["wire"]))
         out.append("front-burst=%d" % min(6, max([len(e["b"]) for e in case["events"] if "b" in e] + [1])))
+        if any("c" in e for e in case["events"]):
+            out.append("front-concurrent-writers=%d" % max(len(e["c"]["gor"]) for e in case["events"] if "c" in e))
+        big = max([w[1] for w in _writes(case)] + [0])
+        out.append("front-longest:" + ("<4KiB" if big < 4096 else "4-16KiB" if big <= 16384 else ">16KiB"))
     else:
         out.append("direct-write")
     if case.get("setup"):
@@ -422,7 +493,7 @@ def bucket(case, obs):
         if l.get("r") and rs:
             chosen = chosen[:-1] + [rs.pop(0)[1]]
         elif l.get("w") is not None and l.get("rot"):
-            chosen.append(ws[l["w"]][2])
+            chosen.append(l.get("s") or (ws[l["w"]][2] if l["w"] < len(ws) else ""))
         dup = dup or len(set(chosen)) != len(chosen)
     out.append("hyp:DUPLICATE-BACKUP-NAME" if dup else "hyp:distinct-backup-names")
     if obs.get("errs"):
